@@ -392,6 +392,7 @@ def run_check(pid, tier, seed, replay=None, keep=False):
     merged = empty_result()
     stage_info = {}
     status = "held"
+    skipped_builds = []
     try:
         for st in spec["stages"]:
             tiers = st.get("tiers")
@@ -402,7 +403,16 @@ def run_check(pid, tier, seed, replay=None, keep=False):
                 continue
             ts = time.time()
             if st.get("kind", "harness") == "harness":
-                r = run_harness_stage(ctx, st)
+                try:
+                    r = run_harness_stage(ctx, st)
+                except build.BuildError as ex:
+                    if not st.get("optional_build"):
+                        raise
+                    # a secondary stage (e.g. instantiations with less common template arguments) no longer compiles
+                    # against this tree: remember it, keep running the other stages (a violation found there wins)
+                    skipped_builds.append((tag, str(ex)[-1500:]))
+                    stage_info[tag] = {"skipped": "harness does not compile against this tree"}
+                    continue
             else:
                 mod, fn = st["func"].split(":")
                 r = getattr(importlib.import_module("vf.oracles." + mod), fn)(ctx, st)
@@ -457,6 +467,8 @@ def run_check(pid, tier, seed, replay=None, keep=False):
     if not unknown and not replay:
         # monitors must have observed something, otherwise "no violation" means nothing
         why = None
+        if skipped_builds:
+            why = "stage(s) %s do not compile against this tree:\n%s" % ([t for t, _ in skipped_builds], skipped_builds[0][1])
         if merged["evaluations"] < spec.get("min_evaluations", 1):
             why = "monitors observed only %d evaluations (< %d)" % (merged["evaluations"], spec.get("min_evaluations", 1))
         need = spec.get("required_classes", [])
